@@ -82,6 +82,13 @@ def atlas_path_docs():
             "post": op("path_item_override", [P("limit", "query", {"type": "string"}, True), P("subId", "path", {"$ref": REF + "Level"})]),
             "patch": op("patch_it"), "head": op("head_it"), "options": op("options_it"), "trace": op("trace_it"),
         },
+        "/shared/{sid}": {
+            "parameters": [P("sid", "path", {"type": "string"}), P("version", "header", {"type": "string"}, True), P("trace", "header", {"type": "string"}, False),
+                           P("page", "query", {"type": "integer"}, False), P("page", "cookie", {"type": "string"}, False)],
+            "get": op("shared_diff_location", [P("version", "query", {"type": "string"}, True), P("trace", "cookie", {"type": "string"}, False)]),
+            "put": op("shared_same_location", [P("version", "header", {"type": "integer"}, False), P("page", "query", {"type": "string"}, True)]),
+            "post": op("shared_untouched"),
+        },
         "/reserved/{client}": {"get": op("reserved_names", [P("client", "path", {"type": "string"}), P("url", "query", {"type": "string"}, False)])},
         "/noparams": {"get": op("no_params"), "post": op("no_params_post")},
         "/secure": {"get": op("secure_op", [P("q", "query", {"type": "string"}, False)], security=[{"key": []}])},
@@ -126,6 +133,10 @@ def atlas_response_docs():
             "422": Jc(any_of({"type": "string", "format": "date"}, NULL))})},
         "/r/ref": {"get": op("ref_responses", responses={"200": {"$ref": "#/components/responses/Ok"}, "404": {"$ref": "#/components/responses/Missing"}})},
         "/r/none": {"get": op("no_content_only", responses={"204": {"description": "none"}, "202": {"description": "accepted"}})},
+        "/r/emptycontent": {"put": op("empty_content_map", responses={"200": Jc({"$ref": REF + "Item"}), "204": {"description": "none", "content": {}},
+                                                                       "205": {"description": "no schema", "content": {"application/json": {}}}})},
+        "/r/textfirst": {"get": op("text_before_json", responses={"200": {"description": "x", "content": {"text/csv": {"schema": {"type": "string"}},
+                                                                                                        "application/json": {"schema": {"$ref": REF + "Other"}}}}})},
         "/r/anyonly": {"get": op("any_only", responses={"200": Jc({})})},
         "/r/mixedany": {"get": op("mixed_any", responses={"200": Jc({}), "404": Jc({"$ref": REF + "Other"})})},
         "/r/texthtml": {"get": op("text_html", responses={"200": {"description": "h", "content": {"text/html": {"schema": {"type": "string"}}}}})},
@@ -174,7 +185,21 @@ def random_doc(rng: random.Random, n_ops=6):
             else:
                 responses[c] = {"description": "d"}
         method = rng.choice(["get", "post", "put", "delete", "patch"])
-        paths.setdefault(path, {})[method] = op(f"op {i} {method}", params, body, responses, tags=[rng.choice(["alpha", "beta"])])
+        item = paths.setdefault(path, {})
+        item[method] = op(f"op {i} {method}", params, body, responses, tags=[rng.choice(["alpha", "beta"])])
+        if rng.random() < 0.5:
+            # path-item level parameters: some share a name (same or different location) with operation-level ones
+            shared = []
+            pool = [p for p in params if p["in"] != "path"]
+            for _ in range(rng.randint(1, 3)):
+                if pool and rng.random() < 0.6:
+                    q = rng.choice(pool)
+                    loc = rng.choice(["query", "header", "cookie"])
+                    shared.append(P(q["name"], loc, PARAM_KINDS[rng.choice(["str", "int", "enumstr"])], rng.random() < 0.5))
+                else:
+                    shared.append(P(rng.choice(NAMES), rng.choice(["query", "header", "cookie"]), PARAM_KINDS["str"], rng.random() < 0.5))
+            seen = set()
+            item["parameters"] = [x for x in shared if (x["name"], x["in"]) not in seen and not seen.add((x["name"], x["in"]))]
     return doc(paths)
 
 
